@@ -99,6 +99,26 @@ Section Roundtrip.
     destruct (bytes_eqb n nm_Return) eqn:E2; [intros _; apply bytes_eqb_eq; exact E2 | discriminate].
   Qed.
 
+  Lemma msg_field_rt_flat fd fv :
+    In fd msgF -> (forall n, f_kind fd <> KPtrStruct n) ->
+    wf_fieldb_msg (f_kind fd) fv = true ->
+    exists e enc, emit_kind_msg (f_kind fd) fv = COk (e, enc) /\
+      (f_omit fd && e = true -> get_msg (f_name fd) empty_xmsg = Some fv) /\
+      (f_omit fd && e = false -> pback (conv_kind_msg ni) (f_kind fd) enc fv).
+  Proof.
+    intros Hin Hflat Hw.
+    destruct (msg_kind_flat (f_kind fd) fv Hflat) as (W & E & C).
+    rewrite W in Hw. rewrite E.
+    destruct (kind_rt ni ni_long _ _ Hw) as (e & enc & He & Hz & Hp).
+    exists e, enc. split; [exact He|]. split.
+    - intros Ho. apply andb_prop in Ho. destruct Ho as [_ ->]. rewrite (msgF_zero fd Hin), (Hz eq_refl). reflexivity.
+    - intros Ho.
+      assert (Hpb : parses_back ni (f_kind fd) enc fv).
+      { apply Hp. destruct (f_omit fd) eqn:Eo; [left; exact Ho | right; apply msgF_total; assumption]. }
+      destruct Hpb as (t & gv & Ht & Hst & Hpt & Hcv).
+      exists t, gv. split; [exact Ht|]. split; [exact Hst|]. split; [exact Hpt | rewrite C; exact Hcv].
+  Qed.
+
   Lemma msg_field_rt x :
     wf_structb SMsg get_msg wf_fieldb_msg x = true ->
     forall fd, In fd msgF ->
@@ -108,22 +128,11 @@ Section Roundtrip.
   Proof.
     intros Hwf fd Hin.
     destruct (wf_struct_in SMsg get_msg wf_fieldb_msg x fd Hwf) as (fv & Hg & Hw); [apply in_encF; rewrite msgF_eq; exact Hin|].
-    destruct (f_kind fd) as [ | | | | | | |n|n| |c|c| | | | | |sn|un] eqn:Ek;
-      try (match goal with
-           | |- _ =>
-               assert (Hflat : forall n, f_kind fd <> KPtrStruct n) by (rewrite Ek; discriminate);
-               rewrite <- Ek in *;
-               destruct (msg_kind_flat (f_kind fd) fv Hflat) as (W & E & C);
-               rewrite W in Hw; rewrite E;
-               destruct (kind_rt ni ni_long _ _ Hw) as (e & enc & He & Hz & Hp);
-               exists fv, e, enc; split; [exact Hg|]; split; [exact He|]; split;
-               [ intros Ho; apply andb_prop in Ho; destruct Ho as [_ ->]; rewrite (msgF_zero fd Hin), (Hz eq_refl); reflexivity
-               | intros Ho;
-                 assert (Hpb : parses_back ni (f_kind fd) enc fv)
-                   by (apply Hp; destruct (f_omit fd) eqn:Eo; [left; exact Ho | right; apply msgF_total; assumption]);
-                 destruct Hpb as (t & gv & Ht & Hst & Hpt & Hcv);
-                 exists t, gv; split; [exact Ht|]; split; [exact Hst|]; split; [exact Hpt | rewrite C; exact Hcv] ]
-           end).
+    assert (Hk : (forall n, f_kind fd <> KPtrStruct n) \/ exists sn, f_kind fd = KPtrStruct sn).
+    { destruct (f_kind fd); try (left; discriminate). right. eauto. }
+    destruct Hk as [Hflat | (sn & Ek)].
+    { destruct (msg_field_rt_flat fd fv Hin Hflat Hw) as (e & enc & H). exists fv, e, enc. split; [exact Hg | exact H]. }
+    rewrite Ek in *.
     (* KPtrStruct *)
     simpl in Hw. destruct fv; try discriminate Hw.
     - (* MsgArgs *)
@@ -132,13 +141,13 @@ Section Roundtrip.
       destruct o as [xa|].
       + destruct (args_rt xa Hw) as (body & asg & He & Hp & Hc).
         exists (FArgs (Some xa)), false, (benc_dict_body body). split; [exact Hg|]. split.
-        { simpl. rewrite Es. unfold encode_args. rewrite argsF_eq, He. reflexivity. }
+        { cbn [emit_kind_msg]. rewrite Es. unfold encode_args. rewrite argsF_eq, He. reflexivity. }
         split; [rewrite Bool.andb_false_r; discriminate|]. intros _.
-        exists (GStruct SArgs), (VStruct asg). split; [simpl; rewrite Es; reflexivity|].
+        exists (GStruct SArgs), (VStruct asg). split; [cbn [ty_of_kind]; rewrite Es; reflexivity|].
         split; [eexists _, _; split; reflexivity|]. split.
         * intros fuel rest Hf. apply Hp. exact Hf.
-        * simpl. rewrite Es. unfold conv_args. rewrite Hc. reflexivity.
-      + exists (FArgs None), true, []. split; [exact Hg|]. split; [simpl; rewrite Es; reflexivity|].
+        * cbn [conv_kind_msg]. rewrite Es. unfold conv_args. rewrite Hc. reflexivity.
+      + exists (FArgs None), true, []. split; [exact Hg|]. split; [cbn [emit_kind_msg]; rewrite Es; reflexivity|].
         split.
         * intros _. rewrite (msgF_zero fd Hin), Ek. reflexivity.
         * intros Ho. rewrite Bool.andb_true_r in Ho. pose proof (msgF_total fd Hin Ho) as T. rewrite Ek in T. discriminate.
@@ -148,13 +157,13 @@ Section Roundtrip.
       destruct o as [xr|].
       + destruct (ret_rt xr Hw) as (body & asg & He & Hp & Hc).
         exists (FRet (Some xr)), false, (benc_dict_body body). split; [exact Hg|]. split.
-        { simpl. rewrite Es. unfold encode_ret. rewrite retF_eq, He. reflexivity. }
+        { cbn [emit_kind_msg]. rewrite Es. unfold encode_ret. rewrite retF_eq, He. reflexivity. }
         split; [rewrite Bool.andb_false_r; discriminate|]. intros _.
-        exists (GStruct SRet), (VStruct asg). split; [simpl; rewrite Es; reflexivity|].
+        exists (GStruct SRet), (VStruct asg). split; [cbn [ty_of_kind]; rewrite Es; reflexivity|].
         split; [eexists _, _; split; reflexivity|]. split.
         * intros fuel rest Hf. apply Hp. exact Hf.
-        * simpl. rewrite Es. unfold conv_ret. rewrite Hc. reflexivity.
-      + exists (FRet None), true, []. split; [exact Hg|]. split; [simpl; rewrite Es; reflexivity|].
+        * cbn [conv_kind_msg]. rewrite Es. unfold conv_ret. rewrite Hc. reflexivity.
+      + exists (FRet None), true, []. split; [exact Hg|]. split; [cbn [emit_kind_msg]; rewrite Es; reflexivity|].
         split.
         * intros _. rewrite (msgF_zero fd Hin), Ek. reflexivity.
         * intros Ho. rewrite Bool.andb_true_r in Ho. pose proof (msgF_total fd Hin Ho) as T. rewrite Ek in T. discriminate.
